@@ -15,6 +15,13 @@
 //!                 {"op":"event","cs":i,"parent":-2|-1|j,"vals":VALS}
 //!                 {"op":"log","cs":i,"msg":hex,"module":null|hex}   (`log` build only: a record of the `log` crate with the
 //!                                          level / target / file / line of callsite i goes through tracing-log's LogTracer)
+//!                 {"op":"race","id":k,"t1":[VALS,..],"t2":[VALS,..],"wait_ms":N}   two threads record on span k at the same time:
+//!                        thread 1 makes the calls t1, thread 2 the calls t2.  A value of TYPE gate1 (in t1's first call) is a
+//!                        Debug impl that announces "formatting has begun" and then waits — bounded by wait_ms — for thread 2's
+//!                        gate2 value to be formatted; thread 2 starts its calls only after that announcement; gate2 announces
+//!                        itself and waits (bounded) for thread 1's first call to return.  When record calls on one span exclude
+//!                        each other (the extensions write lock is held across add_fields) thread 2 blocks, gate1 times out and
+//!                        the calls run one after the other; if they can overlap they are MADE to overlap, deterministically.
 //!                 {"op":"close","id":k}   (the handle is dropped; the driver only does this when nothing else
 //!                                          refers to the span, so that it closes right here)]}
 //! VALS  = [[field_index, {"t":TYPE,"v":...}], ...]   (array order = order of the pairs in the ValueSet)
@@ -22,13 +29,18 @@
 //!         | str | debug | display | args ("v": hex text) | bytes ("v": hex) | f64 ("v": 16 hex digits = bits)
 //!         | f32 ("v": 8 hex digits) | error ("v": [hex text, ...] = Display of the error and of its sources)
 //!         | empty (tracing::field::Empty) | unset (the pair carries no value)
-//! output = {"id":N,"tid":hex(Debug of the thread id),"out":[[hex chunk,...] per op, in op order],"panic":null|hex}
+//!         | gate1 | gate2 ("v": hex text; Debug values, only inside a race op, see there)
+//! output = {"id":N,"tid":hex(Debug of the thread id),"out":[[hex chunk,...] per op, in op order],
+//!           "race":[[overlapped, gate1_timed_out, thread2_started] per race op],"panic":null|hex}
 //!          (one chunk per `write` call on the MakeWriter's writer; the fmt layer hands over one record per call)
 //! Built twice by the driver: plain, and with the package feature `log` = tracing-subscriber's (default) `tracing-log`
 //! feature (bin h_json_log); the first output line says which.
 use std::fmt;
 use std::io::{self, BufRead, Write};
-use std::sync::{Arc, Mutex, OnceLock};
+use std::cell::RefCell;
+use std::sync::atomic::{AtomicBool, Ordering};
+use std::sync::{Arc, Condvar, Mutex, OnceLock};
+use std::time::Duration;
 
 use serde_json::Value as J;
 use tracing::Span;
@@ -124,6 +136,58 @@ impl std::error::Error for ChainErr {
     }
 }
 
+/// a one-shot flag with a BOUNDED wait
+struct Flag(Mutex<bool>, Condvar);
+impl Flag {
+    fn new() -> Self {
+        Flag(Mutex::new(false), Condvar::new())
+    }
+    fn set(&self) {
+        *self.0.lock().unwrap() = true;
+        self.1.notify_all();
+    }
+    fn wait(&self, d: Duration) -> bool {
+        let g = self.0.lock().unwrap();
+        let (g, _) = self.1.wait_timeout_while(g, d, |set| !*set).unwrap();
+        *g
+    }
+}
+struct RaceCtl {
+    begun1: Flag,
+    entered2: Flag,
+    done1: Flag,
+    overlap: AtomicBool,
+    timed_out: AtomicBool,
+    wait: Duration,
+}
+thread_local! {
+    static RACE_CTL: RefCell<Option<Arc<RaceCtl>>> = const { RefCell::new(None) };
+}
+struct Gate {
+    text: String,
+    ctl: Arc<RaceCtl>,
+    which: u8,
+    once: AtomicBool,
+}
+impl fmt::Debug for Gate {
+    fn fmt(&self, f: &mut fmt::Formatter<'_>) -> fmt::Result {
+        if !self.once.swap(true, Ordering::SeqCst) {
+            if self.which == 1 {
+                self.ctl.begun1.set();
+                if self.ctl.entered2.wait(self.ctl.wait) {
+                    self.ctl.overlap.store(true, Ordering::SeqCst);
+                } else {
+                    self.ctl.timed_out.store(true, Ordering::SeqCst);
+                }
+            } else {
+                self.ctl.entered2.set();
+                let _ = self.ctl.done1.wait(self.ctl.wait);
+            }
+        }
+        f.write_str(&self.text)
+    }
+}
+
 enum Val {
     Boxed(Box<dyn Value>),
     Args(String), // fmt::Arguments cannot be stored; materialised at the dispatch site
@@ -168,6 +232,10 @@ fn make_val(v: &J) -> Val {
             }
             let e: Box<dyn std::error::Error + 'static> = e.expect("non-empty error chain");
             Box::new(e)
+        }
+        "gate1" | "gate2" => {
+            let ctl = RACE_CTL.with(|c| c.borrow().clone()).expect("gate value outside a race op");
+            Box::new(tracing::field::debug(Gate { text: hstr(x), ctl, which: if t == "gate1" { 1 } else { 2 }, once: AtomicBool::new(false) }))
         }
         "empty" => Box::new(tracing::field::Empty),
         "unset" => return Val::Unset,
@@ -280,6 +348,7 @@ impl FormatTime for FixedTime {
 struct Out {
     events: Vec<Vec<String>>,
     tid: String,
+    race: Vec<(bool, bool, bool)>,
 }
 
 fn run_ops(case: &J, rec: &Rec, out: &Arc<Mutex<Out>>, disp: &Dispatch) {
@@ -355,6 +424,50 @@ fn run_ops(case: &J, rec: &Rec, out: &Arc<Mutex<Out>>, disp: &Dispatch) {
                 #[cfg(not(feature = "log"))]
                 panic!("op log needs the log build");
             }
+            "race" => {
+                let s = &spans[&op["id"].as_i64().unwrap()];
+                let meta = s.metadata().expect("span metadata");
+                let ctl = Arc::new(RaceCtl {
+                    begun1: Flag::new(),
+                    entered2: Flag::new(),
+                    done1: Flag::new(),
+                    overlap: AtomicBool::new(false),
+                    timed_out: AtomicBool::new(false),
+                    wait: Duration::from_millis(op["wait_ms"].as_u64().unwrap_or(1000)),
+                });
+                let (s1, s2) = (s.clone(), s.clone());
+                let (c1, c2) = (ctl.clone(), ctl.clone());
+                let (t1, t2) = (op["t1"].clone(), op["t2"].clone());
+                let h1 = std::thread::spawn(move || {
+                    RACE_CTL.with(|c| *c.borrow_mut() = Some(c1.clone()));
+                    for (i, vals) in t1.as_array().unwrap().iter().enumerate() {
+                        with_values(meta, vals, &mut |vs| {
+                            s1.record_all(vs);
+                        });
+                        if i == 0 {
+                            c1.done1.set();
+                        }
+                    }
+                    c1.done1.set();
+                    c1.begun1.set(); // a first call without a gate value: do not keep thread 2 waiting
+                });
+                let h2 = std::thread::spawn(move || {
+                    RACE_CTL.with(|c| *c.borrow_mut() = Some(c2.clone()));
+                    let started = c2.begun1.wait(Duration::from_secs(30));
+                    for vals in t2.as_array().unwrap().iter() {
+                        with_values(meta, vals, &mut |vs| {
+                            s2.record_all(vs);
+                        });
+                    }
+                    started
+                });
+                let r1 = h1.join();
+                let started = h2.join();
+                if r1.is_err() || started.is_err() {
+                    panic!("a racing record call panicked");
+                }
+                out.lock().unwrap().race.push((ctl.overlap.load(Ordering::SeqCst), ctl.timed_out.load(Ordering::SeqCst), started.unwrap()));
+            }
             "close" => {
                 drop(spans.remove(&op["id"].as_i64().unwrap()).expect("live span handle"));
             }
@@ -405,7 +518,7 @@ fn run_case(case: &J) -> String {
     } else {
         Dispatch::new(tracing_subscriber::registry().with(layer.with_timer(FixedTime(hstr(&o["ts"])))))
     };
-    let out = Arc::new(Mutex::new(Out { events: vec![], tid: String::new() }));
+    let out = Arc::new(Mutex::new(Out { events: vec![], tid: String::new(), race: vec![] }));
     let mut builder = std::thread::Builder::new();
     if !case["thread"].is_null() {
         builder = builder.name(hstr(&case["thread"]));
@@ -438,6 +551,8 @@ fn run_case(case: &J) -> String {
         s.push_str(&ev.iter().map(|c| format!("\"{}\"", c)).collect::<Vec<_>>().join(","));
         s.push(']');
     }
+    s.push_str("],\"race\":[");
+    s.push_str(&o.race.iter().map(|(a, b, c)| format!("[{},{},{}]", a, b, c)).collect::<Vec<_>>().join(","));
     s.push_str("],\"pending\":[");
     s.push_str(&pending.iter().map(|c| format!("\"{}\"", c)).collect::<Vec<_>>().join(","));
     s.push_str("],\"panic\":");
@@ -466,14 +581,24 @@ fn main() {
         cfg!(feature = "log")
     )
     .unwrap();
+    // `--parallel`: all cases at once (the race stream: every case spends a bounded wait, they overlap)
+    let parallel = args.iter().any(|a| a == "--parallel");
+    let mut pending = Vec::new();
     for line in input.lines() {
         let line = line.expect("read");
         if line.trim().is_empty() {
             continue;
         }
         let case: J = serde_json::from_str(&line).expect("case json");
-        let r = run_case(&case);
-        writeln!(w, "{}", r).unwrap();
+        if parallel {
+            pending.push(std::thread::spawn(move || run_case(&case)));
+        } else {
+            let r = run_case(&case);
+            writeln!(w, "{}", r).unwrap();
+        }
+    }
+    for h in pending {
+        writeln!(w, "{}", h.join().expect("case thread")).unwrap();
     }
     w.flush().unwrap();
 }
